@@ -384,6 +384,16 @@ pub enum Action {
   DropUsing(usize),
   /// advance virtual time by ms (lets timers fire)
   Advance(u64),
+  /// connectable cases: publish().connect() / unsubscribe the connection
+  Connect,
+  Disconnect,
+}
+
+#[derive(Clone, Debug, PartialEq, Eq, Hash, Serialize, Deserialize)]
+pub enum ConnKind {
+  Publish,
+  RefCount,
+  Replay,
 }
 
 #[derive(Clone, Debug, PartialEq, Eq, Hash, Serialize, Deserialize)]
@@ -392,6 +402,10 @@ pub struct Case {
   pub hots: Vec<HotKind>,
   /// ill-formed hot sources keep serving their observers after a terminal
   pub hot_illformed: bool,
+  /// Some(kind): `root` is the *source* of root.publish() / ref_count() / replay(), and the
+  /// recorders subscribe to the connectable's observable()
+  #[serde(default)]
+  pub conn: Option<ConnKind>,
   pub recorders: Vec<Vec<Reaction>>,
   pub actions: Vec<Action>,
 }
@@ -409,6 +423,8 @@ impl Case {
         Action::Unsub(k) => format!("unsub{}", k),
         Action::DropUsing(k) => format!("dropusing{}", k),
         Action::Advance(ms) => format!("+{}ms", ms),
+        Action::Connect => "connect".to_string(),
+        Action::Disconnect => "disconnect".to_string(),
       })
       .collect();
     let reacts: Vec<String> = self
@@ -419,8 +435,12 @@ impl Case {
       .map(|(k, r)| format!("r{}:{:?}", k, r))
       .collect();
     format!(
-      "{} | hots={:?}{} | {} {}",
+      "{}{} | hots={:?}{} | {} {}",
       self.root.show(),
+      match &self.conn {
+        Some(k) => format!(".{:?}()", k).to_lowercase(),
+        None => String::new(),
+      },
       self.hots,
       if self.hot_illformed { " ill-formed" } else { "" },
       acts.join(" "),
